@@ -833,7 +833,7 @@ class Node:
             self._reconnect_peers()
 
     def _receive_message(self, conn: PeerConnection, msg: _AnyMessageType):
-        if hasattr(msg, "origin_host"):
+        if msg.header.is_request and hasattr(msg, "origin_host"):
             # Record who originally sent a request, as this information is lost
             # by the time an answer will go out
             message_id = (f"{msg.header.hop_by_hop_identifier}:"
@@ -992,7 +992,7 @@ class Node:
                 f"{hex(message.header.hop_by_hop_identifier)}")
             return
 
-        app = self._app_waiting_answer[message_id]
+        app = self._app_waiting_answer.pop(message_id)
         if app not in self.applications:
             self.logger.warning(
                 f"{conn} application ID {app_id} wants to receive answer "
